@@ -20,6 +20,21 @@ def emit(*rec):
         os.close(fd)
 
 
+def _die(how):
+    """Scripted death of this process (only ever scripted for layer subprocesses)."""
+    import signal
+    sys.stdout.flush()
+    if how == 'exit0':
+        os._exit(0)
+    if how == 'exit3':
+        os._exit(3)
+    if how == 'kill':
+        os.kill(os.getpid(), signal.SIGKILL)
+    if how == 'segv':
+        os.kill(os.getpid(), signal.SIGSEGV)
+    os._exit(1)
+
+
 def _resume_layer():
     a = sys.argv
     if len(a) > 2 and a[1] == '--resume-layer':
@@ -39,6 +54,10 @@ def _hook(kind, idx, script):
             emit(kind, idx, out, ident)
         else:
             emit(kind, idx, out)
+        if isinstance(out, str) and out.startswith('die:'):
+            if _resume_layer():
+                _die(out[4:])
+            return
         if out == 'raise':
             raise ValueError('%s of layer %d' % (kind, idx))
         if out == 'notimpl':
@@ -101,6 +120,10 @@ def _act(self, out):
         raise SystemExit(3)
     if out == 'kbd':
         raise KeyboardInterrupt
+    if isinstance(out, list) and out[0] == 'die':
+        if _resume_layer():
+            _die(out[1])
+        return
     if isinstance(out, list) and out[0] in ('raise', 'error'):
         raise ValueError(out[1])
     if isinstance(out, list) and out[0] == 'fail':
@@ -124,6 +147,8 @@ def build(modname):
     ns = {}
     layers = []
     emit('imported', modname, _resume_layer())
+    if WORLD.get('die_import') and _resume_layer():
+        _die(WORLD['die_import'])
     for idx, L in enumerate(WORLD['layers']):
         bases = [layers[b] for b in L['bases']]
         d = {}
